@@ -58,9 +58,25 @@ def strip_comments(src):
     return "".join(out)
 
 
-def forbidden_scan():
+def closure_files(pid):
+    """Source files Properties/<pid>.v and Corr/<pid>.v depend on (KV modules, transitively)."""
+    seen, todo = set(), [os.path.join("Properties", pid + ".v"), os.path.join("Corr", pid + ".v")]
+    while todo:
+        rel = todo.pop()
+        path = os.path.join(COQ, rel)
+        if rel in seen or not os.path.exists(path):
+            continue
+        seen.add(rel)
+        code = strip_comments(open(path, errors="replace").read())
+        for m in re.finditer(r"From\s+KV\s+Require\s+(?:Import|Export)\s+(.*?)\.(?:\s|$)", code, re.S):
+            for mod in m.group(1).split():
+                todo.append(mod.replace(".", os.sep) + ".v")
+    return [os.path.join(COQ, r) for r in sorted(seen)]
+
+
+def forbidden_scan(files=None):
     bad = []
-    for f in glob.glob(os.path.join(COQ, "**", "*.v"), recursive=True):
+    for f in (files if files is not None else glob.glob(os.path.join(COQ, "**", "*.v"), recursive=True)):
         code = strip_comments(open(f, errors="replace").read())
         # string literals cannot smuggle vernacular; scan code only
         code = re.sub(r'"(?:[^"]|"")*"', '""', code)
@@ -69,12 +85,14 @@ def forbidden_scan():
     return bad
 
 
-def coq_build(clean=False):
-    """Full .vo build.  Returns (ok, output)."""
+def coq_build(clean=False, only=None):
+    """Full .vo build (thorough tier / setup), or -- quick tier -- only the closure of the given
+    targets, so that one property's check does not wait for (or fail on) files that belong to
+    other properties.  Returns (ok, output)."""
     with Lock(".coqlock"):
         if clean:
             sh(["bash", "-c", "[ -f Makefile ] && make clean >/dev/null 2>&1; rm -f _CoqProject Makefile Makefile.conf .Makefile.d"], cwd=COQ)
-        rc, out = sh([os.path.join(COQ, "build.sh")], cwd=COQ, timeout=3000)
+        rc, out = sh([os.path.join(COQ, "build.sh")] + (only or []), cwd=COQ, timeout=3000)
         return rc == 0, out
 
 
@@ -214,11 +232,14 @@ def main(argv):
 
     # ---------------------------------------------------------------- 1. proof
     proof_ok, proof_detail = True, ""
-    forb = forbidden_scan()
+    # quick tier: the files this property depends on; thorough tier: the whole development
+    forb = forbidden_scan(closure_files(pid) if tier == "quick" else None)
     if forb:
         proof_ok, proof_detail = False, "forbidden vernacular: " + "; ".join(forb[:5])
     if not a.no_build:
-        ok, out = coq_build(clean=(tier == "thorough" and os.environ.get("VERIF_NO_CLEAN") != "1"))
+        closure = ["Properties/%s.vo" % pid, "Corr/%s.vo" % pid]
+        ok, out = coq_build(clean=(tier == "thorough" and os.environ.get("VERIF_NO_CLEAN") != "1"),
+                            only=(closure if tier == "quick" else None))
         if not ok:
             # does the failure concern this property's closure?
             ok2, out2 = coq_target("Properties/%s.vo Corr/%s.vo" % (pid, pid))
